@@ -58,10 +58,11 @@ const (
 	KConv                  // T(A[0])
 	KField                 // field I of non-expanded struct value A[0]
 	KRange                 // range iterator over A[0], created at site S
+	KPure                  // result I of the deterministic function S applied to A (same arguments, same term)
 	KUnknown               // unknown value created at S
 )
 
-var kindNames = [...]string{"const", "nil", "zero", "param", "free", "ev", "evarg", "wrap", "fresh", "box", "struct", "array", "tuple", "alloc", "global", "fieldaddr", "indexaddr", "load", "len", "cap", "sliceof", "make", "lookup", "lookupok", "aff", "sym", "bin", "not", "neg", "ta", "taok", "closure", "func", "conv", "field", "range", "unknown"}
+var kindNames = [...]string{"const", "nil", "zero", "param", "free", "ev", "evarg", "wrap", "fresh", "box", "struct", "array", "tuple", "alloc", "global", "fieldaddr", "indexaddr", "load", "len", "cap", "sliceof", "make", "lookup", "lookupok", "aff", "sym", "bin", "not", "neg", "ta", "taok", "closure", "func", "conv", "field", "range", "pure", "unknown"}
 
 func (k Kind) String() string { return kindNames[k] }
 
@@ -107,7 +108,7 @@ func mk(t Term) *Term {
 		sb.WriteByte(':')
 		sb.WriteString(t.S)
 	}
-	if t.I != 0 || t.IsInt || t.K == KParam || t.K == KEv || t.K == KEvArg || t.K == KFieldAddr || t.K == KField || t.K == KAff {
+	if t.I != 0 || t.IsInt || t.K == KParam || t.K == KEv || t.K == KEvArg || t.K == KFieldAddr || t.K == KField || t.K == KAff || t.K == KPure {
 		sb.WriteByte('#')
 		sb.WriteString(strconv.FormatInt(t.I, 10))
 	}
@@ -260,6 +261,11 @@ func Func(name string, fn any) *Term   { return mk(Term{K: KFunc, S: name, Aux: 
 func Conv(t types.Type, x *Term) *Term { return mk(Term{K: KConv, T: t, A: []*Term{x}}) }
 func Field(x *Term, i int) *Term       { return mk(Term{K: KField, I: int64(i), A: []*Term{x}}) }
 func Range(site string, x *Term) *Term { return mk(Term{K: KRange, S: site, A: []*Term{x}}) }
+
+// Pure is result k of the deterministic function name applied to args.
+func Pure(name string, k int, args ...*Term) *Term {
+	return mk(Term{K: KPure, S: name, I: int64(k), A: args})
+}
 
 // Aff builds base + c, normalising nested affine terms and constants.
 func Aff(base *Term, c int64) *Term {
@@ -511,6 +517,11 @@ func (t *Term) Pretty() string {
 		return fmt.Sprintf("%s.f%d", t.A[0].Pretty(), t.I)
 	case KRange:
 		return "range(" + args() + ")"
+	case KPure:
+		if t.I != 0 {
+			return fmt.Sprintf("%s(%s).%d", t.S, args(), t.I)
+		}
+		return t.S + "(" + args() + ")"
 	case KUnknown:
 		return "?[" + shortSite(t.S) + "]"
 	}
